@@ -3,6 +3,7 @@ import Rg.Model.IRPrint
 import Rg.Spec.C05
 import Rg.Proofs.IRCanon
 import Rg.Proofs.IRAsIs
+import Rg.Props.C05Load
 /-!
 # C05 — precompiled IR rules behave exactly like the source rules (IR half)
 
@@ -17,8 +18,10 @@ import Rg.Proofs.IRAsIs
 * `model_meets_spec…`  — the models satisfy the executable statement the driver evaluates on the
                          implementation's tokens.
 
-The end-to-end half of the property (equal groups and reports of `Load` and `LoadFromIR` engines) is
-established differentially by the harness (suite `e2e`); it has no Lean model of the loader here.
+The loader half — the round trip composed with the loader model of C06 and the converter model of C18/C06:
+`load_respects_normalize`, `precompiled_load_eq_ir_load`, `precompiled_eq_source_load`, … — is in
+`Rg/Props/C05Load.lean` (same namespace).  Equal *reports* of `Load` and `LoadFromIR` engines (the run-time
+half) are established differentially by the harness (suite `e2e`).
 -/
 namespace C05
 open IR SpecC05 IRProofs
